@@ -53,6 +53,16 @@ def run(ctx, factor):
             fh.write(".data\n.byte 1,2,3,4\n.section .rodata\n.byte 9,9\n")
         subprocess.run(["as", "-o", dpath[:-2] + ".o", dpath], check=True, capture_output=True)
         objs.append((dpath[:-2] + ".o", [".text", ".data"]))
+        # an object objdump disassembles completely (exit status 0) while WARNING on stderr: its .note.gnu.property holds a
+        # property type this binutils does not know (what an object of a newer toolchain looks like to an older objdump)
+        wpath = os.path.join(ctx.scratch.dir, "warned.S")
+        with open(wpath, "w") as fh:
+            fh.write(".text\nf:\n push %rbp\n mov %rsp,%rbp\n pop %rbp\n ret\n.section .mycode,\"ax\"\ng:\n push %rbx\n pop %rbx\n ret\n"
+                     ".section .note.gnu.property,\"a\"\n.align 8\n.long 4\n.long 16\n.long 5\n.asciz \"GNU\"\n.long 0x777\n.long 4\n.long 1\n.long 0\n")
+        if subprocess.run(["as", "-o", wpath[:-2] + ".o", wpath], capture_output=True).returncode == 0:
+            pr = subprocess.run(["objdump", "-d", "-M", "att", wpath[:-2] + ".o"], capture_output=True, text=True)
+            rep.dist["object-with-objdump-warning(rc=%d,stderr=%s)" % (pr.returncode, "yes" if pr.stderr else "no")] += 1
+            objs.append((wpath[:-2] + ".o", [".text", ".mycode"]))
         # containers other than ELF that objdump disassembles just as well: a PE/COFF object and a static library
         base = objfuzz.assemble(ctx.scratch, [(".text", objfuzz.random_bytes(g, 30)), (".text.hot", objfuzz.random_bytes(g, 20))], name="forcoff")
         coff = os.path.join(ctx.scratch.dir, "forcoff.obj")
